@@ -1,8 +1,7 @@
 package main
 
-// The hypotheses of the C04 theorems (Props_C04.v: WF, consistent, repoint_ordered), re-stated on the
-// harness scenario, so that the evidence shows on how many generated cases the theorems apply and that
-// C04_safe_exact's right-hand side predicts the verdict the oracle computes from the Go plan.
+// The hypotheses of the C04 theorems (Props_C04.v: WF, consistent), re-stated on the harness scenario,
+// so that the evidence shows on how many generated cases the theorems apply.
 
 func (c chg) allFKs() []fkey {
 	if c.kind != 'M' {
@@ -68,6 +67,28 @@ func scenarioWF(sc *scenario) bool {
 			}
 		}
 	}
+	// symbols: distinct among the keys of a dropped table, and among the keys a ModifyTable drops / re-points
+	for _, c := range sc.cs {
+		seen := map[int]bool{}
+		switch c.kind {
+		case 'D':
+			for _, f := range c.fks {
+				if seen[f.sym] {
+					return false
+				}
+				seen[f.sym] = true
+			}
+		case 'M':
+			for _, tc := range c.tcs {
+				if tc.kind == '-' || tc.kind == '~' {
+					if seen[tc.f.sym] {
+						return false
+					}
+					seen[tc.f.sym] = true
+				}
+			}
+		}
+	}
 	return true
 }
 
@@ -107,6 +128,27 @@ func scenarioConsistent(sc *scenario) bool {
 			}
 		}
 	}
+	// the keys of dropped tables and the keys a ModifyTable drops / re-points are live
+	live := map[[2]int]bool{}
+	for _, e := range sc.cat.fks {
+		live[[2]int{e[0], e[1]}] = true
+	}
+	for _, c := range sc.cs {
+		switch c.kind {
+		case 'D':
+			for _, f := range c.fks {
+				if !live[[2]int{c.t.name, f.sym}] {
+					return false
+				}
+			}
+		case 'M':
+			for _, tc := range c.tcs {
+				if (tc.kind == '-' || tc.kind == '~') && !live[[2]int{c.t.name, tc.f.sym}] {
+					return false
+				}
+			}
+		}
+	}
 	for _, e := range sc.cat.fks {
 		child, sym, parent := e[0], e[1], e[2]
 		if !dropped[parent] || child == parent {
@@ -133,30 +175,6 @@ func scenarioConsistent(sc *scenario) bool {
 		}
 		if !covered {
 			return false
-		}
-	}
-	return true
-}
-
-// scenarioOrdered: every re-pointed key whose new parent is created stands after that AddTable.
-func scenarioOrdered(sc *scenario) bool {
-	addedAll := map[int]bool{}
-	for _, c := range sc.cs {
-		if c.kind == 'A' {
-			addedAll[c.t.name] = true
-		}
-	}
-	before := map[int]bool{}
-	for _, c := range sc.cs {
-		if c.kind == 'M' {
-			for _, tc := range c.tcs {
-				if tc.kind == '~' && addedAll[tc.g.ref.name] && !before[tc.g.ref.name] {
-					return false
-				}
-			}
-		}
-		if c.kind == 'A' {
-			before[c.t.name] = true
 		}
 	}
 	return true
